@@ -98,8 +98,282 @@ theorem production_spec (x1 S P E : ℝ) (hx1 : 0 < x1) (hS0 : 0 ≤ S) (hS1 : S
     refine ⟨le_refl _, hes0, le_refl _, by linarith, by linarith, by linarith, ?_⟩
     intro hE0
     have hP0 : P = 0 := by linarith
-    have hw' : w = 0 := by rw [hw, hE0, hP0]; simp [cap_zero]
+    have hw' : w = 0 := by rw [hw, hE0, hP0]; simp only [sub_self, zero_div, cap_zero]
     have ht' : t = 0 := by rw [ht, hw', Real.tanh_zero]
-    rw [ht', hP0]; simp
+    rw [ht', hP0]; norm_num
+
+/-! ### percolation and routing store -/
+
+theorem percolation_real (x1 s : ℝ) :
+    percolation x1 s = s * (1 - (1 + (4 / 9 * (s / x1)) ^ 4) ^ (-((1 : ℝ) / 4))) := by
+  simp only [percolation, RealNum.pow_eq, RealNum.ofNat_eq]
+  norm_num only
+  simp only [rpow_four]
+  ring_nf
+
+/-- 0 ≤ Perc ≤ S for S ≥ 0 (any x1: the bracket lies in [0,1)) -/
+theorem percolation_spec (x1 s : ℝ) (hs : 0 ≤ s) : 0 ≤ percolation x1 s ∧ percolation x1 s ≤ s := by
+  rw [percolation_real]
+  have hy : (1 : ℝ) ≤ 1 + (4 / 9 * (s / x1)) ^ 4 := by
+    have : 0 ≤ (4 / 9 * (s / x1)) ^ 4 := by positivity
+    linarith
+  have h1 : (1 + (4 / 9 * (s / x1)) ^ 4) ^ (-((1 : ℝ) / 4)) ≤ 1 :=
+    Real.rpow_le_one_of_one_le_of_nonpos hy (by norm_num)
+  have h0 : 0 ≤ (1 + (4 / 9 * (s / x1)) ^ 4) ^ (-((1 : ℝ) / 4)) := Real.rpow_nonneg (by linarith) _
+  constructor <;> nlinarith
+
+theorem routingOutflow_real (x3 r : ℝ) :
+    routingOutflow x3 r = r - r / (1 + (r / x3) ^ 4) ^ ((1 : ℝ) / 4) := by
+  simp only [routingOutflow, RealNum.pow_eq, RealNum.ofNat_eq]
+  norm_num only
+  simp only [rpow_four]
+  ring_nf
+
+/-- for R ≥ 0 and x3 > 0: 0 ≤ Qr ≤ R and the store left, R − Qr, is below the capacity x3;
+the divisor (1 + (R/x3)⁴)^(1/4) is ≥ 1 -/
+theorem routing_spec (x3 r : ℝ) (hx3 : 0 < x3) (hr : 0 ≤ r) :
+    0 ≤ routingOutflow x3 r ∧ routingOutflow x3 r ≤ r ∧ r - routingOutflow x3 r ≤ x3 ∧
+    1 ≤ (1 + (r / x3) ^ 4) ^ ((1 : ℝ) / 4) := by
+  rw [routingOutflow_real]
+  have hu : 0 ≤ r / x3 := div_nonneg hr hx3.le
+  have hy : (1 : ℝ) ≤ 1 + (r / x3) ^ 4 := by
+    have : 0 ≤ (r / x3) ^ 4 := by positivity
+    linarith
+  have hz1 : 1 ≤ (1 + (r / x3) ^ 4) ^ ((1 : ℝ) / 4) := Real.one_le_rpow hy (by norm_num)
+  have hzu : r / x3 ≤ (1 + (r / x3) ^ 4) ^ ((1 : ℝ) / 4) := by
+    have h1 : ((r / x3) ^ 4) ^ ((1 : ℝ) / 4) ≤ (1 + (r / x3) ^ 4) ^ ((1 : ℝ) / 4) :=
+      Real.rpow_le_rpow (by positivity) (by linarith) (by norm_num)
+    have h2 : ((r / x3) ^ 4) ^ ((1 : ℝ) / 4) = r / x3 := by
+      have := Real.pow_rpow_inv_natCast hu (by norm_num : (4 : ℕ) ≠ 0)
+      rw [show ((1 : ℝ) / 4) = ((4 : ℕ) : ℝ)⁻¹ by norm_num]
+      exact this
+    linarith
+  set z := (1 + (r / x3) ^ 4) ^ ((1 : ℝ) / 4) with hz
+  have hzpos : 0 < z := by linarith
+  have hq : r / z ≤ r := div_le_self hr hz1
+  have hq0 : 0 ≤ r / z := div_nonneg hr hzpos.le
+  have hq3 : r / z ≤ x3 := by
+    rw [div_le_iff₀ hzpos]
+    have : r = (r / x3) * x3 := by field_simp
+    nlinarith
+  exact ⟨by linarith, by linarith, by linarith, hz1⟩
+
+/-! ### unit-hydrograph stores: water in transit -/
+
+theorem addUH_sum (pr f : ℝ) : ∀ (q uh : List ℝ), q.length = uh.length →
+    (addUH pr f q uh).sum = q.sum + pr * f * uh.sum
+  | [], [], _ => by simp [addUH]
+  | [], _ :: _, h => by simp at h
+  | _ :: _, [], h => by simp at h
+  | a :: q, u :: uh, h => by
+    have ih := addUH_sum pr f q uh (by simpa using h)
+    simp only [addUH, List.zipWith_cons_cons, List.sum_cons] at ih ⊢
+    rw [ih]; ring
+
+theorem addUH_nonneg (pr f : ℝ) (hpf : 0 ≤ pr * f) (q uh : List ℝ) (hq : ∀ x ∈ q, 0 ≤ x) (hu : ∀ x ∈ uh, 0 ≤ x) :
+    ∀ x ∈ addUH pr f q uh, 0 ≤ x := by
+  intro x hx
+  simp only [addUH, List.mem_iff_getElem, List.length_zipWith] at hx
+  obtain ⟨i, hi, rfl⟩ := hx
+  rw [List.getElem_zipWith]
+  have h1 := hq _ (List.getElem_mem (show i < q.length by omega))
+  have h2 := hu _ (List.getElem_mem (show i < uh.length by omega))
+  have := mul_nonneg hpf h2
+  linarith
+
+/-- what leaves the vector today plus what stays in it is what was in it -/
+theorem head_add_shift_sum (a : List ℝ) (ha : 0 < a.length) : head0 a + (shift a).sum = a.sum := by
+  cases a with
+  | nil => simp at ha
+  | cons x xs => simp [head0, shift, sciZero]
+
+theorem shift_nonneg (a : List ℝ) (ha : ∀ x ∈ a, 0 ≤ x) : ∀ x ∈ shift a, 0 ≤ x := by
+  intro x hx
+  simp only [shift, List.mem_append, List.mem_singleton] at hx
+  rcases hx with hx | hx
+  · exact ha x (List.mem_of_mem_tail hx)
+  · rw [hx, sciZero]
+
+theorem head0_nonneg (a : List ℝ) (ha : ∀ x ∈ a, 0 ≤ x) : 0 ≤ head0 a := by
+  cases a with
+  | nil => simp [head0, sciZero]
+  | cons x xs => simpa [head0] using ha x (List.mem_cons_self ..)
+
+/-! ### one day: invariant and accounting identity -/
+
+/-- documented parameter ranges used by the C10 theorems: capacities and time base positive (the divisors) -/
+structure ParamsOk (x1 x3 x4 : ℝ) : Prop where
+  x1pos : 0 < x1
+  x3pos : 0 < x3
+  x4pos : 0 < x4
+
+/-- stores within bounds, water in transit non-negative, UH vectors of the model's own lengths -/
+def Inv (x1 x3 x4 : ℝ) (st : State ℝ) : Prop :=
+  0 ≤ st.S ∧ st.S ≤ x1 ∧ 0 ≤ st.R ∧ st.R ≤ x3 ∧ (∀ q ∈ st.q1, 0 ≤ q) ∧ (∀ q ∈ st.q9, 0 ≤ q) ∧ Shaped x4 st
+
+/-- water held: production store + routing store + water in transit in the two unit hydrographs -/
+def stor (st : State ℝ) : ℝ := st.S + st.R + st.q1.sum + st.q9.sum
+
+theorem split_sum : (@OfScientific.ofScientific ℝ (instNumReal.toOfScientific) 9 true 1) +
+    (@OfScientific.ofScientific ℝ (instNumReal.toOfScientific) 1 true 1) = 1 := by
+  rw [OW.RR.Surm.sci, OW.RR.Surm.sci]; norm_num
+
+theorem nine_nonneg : 0 ≤ (@OfScientific.ofScientific ℝ (instNumReal.toOfScientific) 9 true 1) := by
+  rw [OW.RR.Surm.sci]; norm_num
+theorem one_nonneg : 0 ≤ (@OfScientific.ofScientific ℝ (instNumReal.toOfScientific) 1 true 1) := by
+  rw [OW.RR.Surm.sci]; norm_num
+
+theorem ite_pos_eq_max (t : ℝ) [Decidable (0 < t)] : (if 0 < t then t else 0) = max 0 t := by
+  split_ifs with h
+  · exact (max_eq_right h.le).symm
+  · exact (max_eq_left (not_lt.mp h)).symm
+
+theorem clip_eq_max (r : ℝ) [Decidable (r < 0)] : (if r < 0 then 0 else r) = max 0 r := (max_clip r).symm
+
+theorem step_master (x1 x2 x3 x4 : ℝ) (hp : ParamsOk x1 x3 x4) (st : State ℝ) (hst : Inv x1 x3 x4 st)
+    (pe : ℝ × ℝ) (hpe : 0 ≤ pe.1 ∧ 0 ≤ pe.2) :
+    Inv x1 x3 x4 (step x1 x2 x3 (uh1 x4 ⌈x4⌉₊) (uh2 x4 ⌈2 * x4⌉₊) st pe).1 ∧
+    0 ≤ (step x1 x2 x3 (uh1 x4 ⌈x4⌉₊) (uh2 x4 ⌈2 * x4⌉₊) st pe).2.qr ∧
+    0 ≤ (step x1 x2 x3 (uh1 x4 ⌈x4⌉₊) (uh2 x4 ⌈2 * x4⌉₊) st pe).2.qd ∧
+    (step x1 x2 x3 (uh1 x4 ⌈x4⌉₊) (uh2 x4 ⌈2 * x4⌉₊) st pe).2.runoff =
+      (step x1 x2 x3 (uh1 x4 ⌈x4⌉₊) (uh2 x4 ⌈2 * x4⌉₊) st pe).2.qr +
+      (step x1 x2 x3 (uh1 x4 ⌈x4⌉₊) (uh2 x4 ⌈2 * x4⌉₊) st pe).2.qd ∧
+    ∃ a b c : ℝ,
+      (step x1 x2 x3 (uh1 x4 ⌈x4⌉₊) (uh2 x4 ⌈2 * x4⌉₊) st pe).2.runoff +
+        stor (step x1 x2 x3 (uh1 x4 ⌈x4⌉₊) (uh2 x4 ⌈2 * x4⌉₊) st pe).1 = stor st + a + b + c ∧
+      a ≤ pe.1 ∧ (pe.2 = 0 → a = pe.1) ∧ (x2 ≤ 0 → b ≤ 0 ∧ c ≤ 0) ∧ (x2 = 0 → b = 0 ∧ c = 0) := by
+  obtain ⟨hS0, hS1, hR0, hR1, hq1, hq9, hsh9, hsh1⟩ := hst
+  obtain ⟨hP, hE⟩ := hpe
+  have hx4 := hp.x4pos
+  have hn1 : 0 < ⌈x4⌉₊ := Nat.ceil_pos.mpr hx4
+  have hn2 : 0 < ⌈2 * x4⌉₊ := Nat.ceil_pos.mpr (by linarith)
+  obtain ⟨p1, p2, p3, p4, p5, p6, p7⟩ := production_spec x1 st.S pe.1 pe.2 hp.x1pos hS0 hS1 hP hE
+  simp only [Inv, stor, step, Shaped]
+  set prod := production x1 st.S pe.1 pe.2 with hprod
+  set s1 := st.S - prod.2.1 + prod.1 with hs1
+  obtain ⟨c1, c2⟩ := percolation_spec x1 s1 p4
+  set perc := percolation x1 s1 with hperc
+  set pr := perc + prod.2.2 with hpr
+  have hpr0 : 0 ≤ pr := by linarith
+  -- unit hydrographs
+  have hl9 : st.q9.length = (uh1 x4 ⌈x4⌉₊).length := by rw [uh1_length, hsh9]
+  have hl1 : st.q1.length = (uh2 x4 ⌈2 * x4⌉₊).length := by rw [uh2_length, hsh1]
+  have hsum9 := addUH_sum pr 0.9 st.q9 _ hl9
+  have hsum1 := addUH_sum pr 0.1 st.q1 _ hl1
+  rw [uh1_sum x4 hx4, mul_one] at hsum9
+  rw [uh2_sum x4 hx4, mul_one] at hsum1
+  have hnn9 := addUH_nonneg pr 0.9 (mul_nonneg hpr0 nine_nonneg) st.q9 _ hq9 (uh1_nonneg x4 hx4)
+  have hnn1 := addUH_nonneg pr 0.1 (mul_nonneg hpr0 one_nonneg) st.q1 _ hq1 (uh2_nonneg x4 hx4)
+  have hlen9 := addUH_length pr 0.9 st.q9 _ hl9
+  have hlen1 := addUH_length pr 0.1 st.q1 _ hl1
+  set q9a := addUH pr 0.9 st.q9 (uh1 x4 ⌈x4⌉₊) with hq9a
+  set q1a := addUH pr 0.1 st.q1 (uh2 x4 ⌈2 * x4⌉₊) with hq1a
+  have hhs9 := head_add_shift_sum q9a (by omega)
+  have hhs1 := head_add_shift_sum q1a (by omega)
+  have hQ9 := head0_nonneg q9a hnn9
+  have hQ1 := head0_nonneg q1a hnn1
+  set Q9 := head0 q9a with hQ9d
+  set Q1 := head0 q1a with hQ1d
+  -- routing
+  have hpow : 0 ≤ Num.pow (st.R / x3) (3.5 : ℝ) := by
+    rw [RealNum.pow_eq]; exact Real.rpow_nonneg (div_nonneg hR0 hp.x3pos.le) _
+  set ech := x2 * Num.pow (st.R / x3) (3.5 : ℝ) with hech
+  have hech0 : x2 ≤ 0 → ech ≤ 0 := fun h => mul_nonpos_of_nonpos_of_nonneg h hpow
+  have hech1 : x2 = 0 → ech = 0 := fun h => by rw [hech, h, zero_mul]
+  simp only [sciZero, numZero, clip_eq_max, ite_pos_eq_max]
+  set r2 := max 0 (st.R + Q9 + ech) with hr2
+  have hr20 : 0 ≤ r2 := le_max_left _ _
+  obtain ⟨g1, g2, g3, _⟩ := routing_spec x3 r2 hp.x3pos hr20
+  set qr := routingOutflow x3 r2 with hqr
+  set qd := max 0 (Q1 + ech) with hqd
+  have hqd0 : 0 ≤ qd := le_max_left _ _
+  have hb0 : x2 ≤ 0 → r2 - st.R - Q9 ≤ 0 := by
+    intro h; have := hech0 h
+    have : r2 ≤ st.R + Q9 := max_le (by linarith) (by linarith)
+    linarith
+  have hb1 : x2 = 0 → r2 - st.R - Q9 = 0 := by
+    intro h; have := hech1 h; rw [hr2, max_eq_right (by linarith)]; linarith
+  have hc0 : x2 ≤ 0 → qd - Q1 ≤ 0 := by
+    intro h; have := hech0 h
+    have : qd ≤ Q1 := max_le hQ1 (by linarith)
+    linarith
+  have hc1 : x2 = 0 → qd - Q1 = 0 := by
+    intro h; have := hech1 h; rw [hqd, max_eq_right (by linarith)]; linarith
+  refine ⟨⟨by linarith, by linarith, by linarith, by linarith, shift_nonneg _ hnn1, shift_nonneg _ hnn9, ?_, ?_⟩,
+    g1, hqd0, trivial, prod.1 + prod.2.2 - prod.2.1, r2 - st.R - Q9, qd - Q1, ?_, p6, p7,
+    fun h => ⟨hb0 h, hc0 h⟩, fun h => ⟨hb1 h, hc1 h⟩⟩
+  · rw [shift_length _ (by omega), hlen9, hsh9]
+  · rw [shift_length _ (by omega), hlen1, hsh1]
+  · have e9 : (shift q9a).sum = st.q9.sum + pr * 0.9 - Q9 := by linarith
+    have e1 : (shift q1a).sum = st.q1.sum + pr * 0.1 - Q1 := by linarith
+    rw [e9, e1]
+    have := split_sum
+    have hsplit : pr * 0.9 + pr * 0.1 = pr := by rw [← mul_add, split_sum, mul_one]
+    linarith
+
+/-! ### whole runs -/
+
+/-- what every day's outputs satisfy -/
+def OutOk (o : Out ℝ) : Prop := 0 ≤ o.runoff ∧ o.runoff = o.qr + o.qd ∧ 0 ≤ o.qr ∧ 0 ≤ o.qd
+
+theorem step_budget (x1 x2 x3 x4 : ℝ) (hp : ParamsOk x1 x3 x4) (hx2 : x2 ≤ 0) (st : State ℝ) (pe : ℝ × ℝ)
+    (hst : Inv x1 x3 x4 st) (hpe : 0 ≤ pe.1 ∧ 0 ≤ pe.2) :
+    Inv x1 x3 x4 (step x1 x2 x3 (uh1 x4 ⌈x4⌉₊) (uh2 x4 ⌈2 * x4⌉₊) st pe).1 ∧
+    (step x1 x2 x3 (uh1 x4 ⌈x4⌉₊) (uh2 x4 ⌈2 * x4⌉₊) st pe).2.runoff +
+      stor (step x1 x2 x3 (uh1 x4 ⌈x4⌉₊) (uh2 x4 ⌈2 * x4⌉₊) st pe).1 ≤ pe.1 + stor st ∧
+    OutOk (step x1 x2 x3 (uh1 x4 ⌈x4⌉₊) (uh2 x4 ⌈2 * x4⌉₊) st pe).2 := by
+  obtain ⟨h1, h2, h3, h4, a, b, c, h5, h6, _, h8, _⟩ := step_master x1 x2 x3 x4 hp st hst pe hpe
+  obtain ⟨hb, hc⟩ := h8 hx2
+  exact ⟨h1, by linarith, by linarith, h4, h2, h3⟩
+
+/-- without any hypothesis on x2: the invariant and the output facts (a positive x2 imports groundwater, so
+only the budget needs x2 ≤ 0) -/
+theorem step_inv (x1 x2 x3 x4 : ℝ) (hp : ParamsOk x1 x3 x4) (st : State ℝ) (pe : ℝ × ℝ)
+    (hst : Inv x1 x3 x4 st) (hpe : 0 ≤ pe.1 ∧ 0 ≤ pe.2) :
+    Inv x1 x3 x4 (step x1 x2 x3 (uh1 x4 ⌈x4⌉₊) (uh2 x4 ⌈2 * x4⌉₊) st pe).1 ∧
+    (0 : ℝ) + 0 ≤ 0 + 0 ∧
+    OutOk (step x1 x2 x3 (uh1 x4 ⌈x4⌉₊) (uh2 x4 ⌈2 * x4⌉₊) st pe).2 := by
+  obtain ⟨h1, h2, h3, h4, _⟩ := step_master x1 x2 x3 x4 hp st hst pe hpe
+  exact ⟨h1, le_refl _, by linarith, h4, h2, h3⟩
+
+theorem step_closed (x1 x3 x4 : ℝ) (hp : ParamsOk x1 x3 x4) (st : State ℝ) (pe : ℝ × ℝ)
+    (hst : Inv x1 x3 x4 st) (hpe : 0 ≤ pe.1 ∧ pe.2 = 0) :
+    Inv x1 x3 x4 (step x1 0 x3 (uh1 x4 ⌈x4⌉₊) (uh2 x4 ⌈2 * x4⌉₊) st pe).1 ∧
+    (step x1 0 x3 (uh1 x4 ⌈x4⌉₊) (uh2 x4 ⌈2 * x4⌉₊) st pe).2.runoff +
+      stor (step x1 0 x3 (uh1 x4 ⌈x4⌉₊) (uh2 x4 ⌈2 * x4⌉₊) st pe).1 = pe.1 + stor st := by
+  obtain ⟨h1, _, _, _, a, b, c, h5, _, h7, _, h9⟩ :=
+    step_master x1 0 x3 x4 hp st hst pe ⟨hpe.1, by rw [hpe.2]⟩
+  obtain ⟨hb, hc⟩ := h9 rfl
+  have := h7 hpe.2
+  exact ⟨h1, by linarith⟩
+
+theorem stor_nonneg (x1 x3 x4 : ℝ) (st : State ℝ) (h : Inv x1 x3 x4 st) : 0 ≤ stor st := by
+  obtain ⟨h1, _, h3, _, h5, h6, _⟩ := h
+  have := List.sum_nonneg h5
+  have := List.sum_nonneg h6
+  unfold stor; linarith
+
+/-- the model's own initial state satisfies the invariant and holds no water -/
+theorem init_inv (x1 x3 x4 : ℝ) (hp : ParamsOk x1 x3 x4) :
+    Inv x1 x3 x4 (initState x4).1 ∧ stor (initState x4).1 = 0 := by
+  have h1 := init_n1 x4 hp.x4pos
+  have h2 := init_n2 x4 hp.x4pos
+  have hz : ∀ n : ℕ, ∀ q ∈ (zeros n : List ℝ), q = 0 := by
+    intro n q hq; exact (List.mem_replicate.mp hq).2
+  have hs : ∀ n : ℕ, (zeros n : List ℝ).sum = 0 := by
+    intro n; exact List.sum_eq_zero (hz n)
+  refine ⟨⟨?_, ?_, ?_, ?_, ?_, ?_, ?_, ?_⟩, ?_⟩
+  · show (0 : ℝ) ≤ (0.0 : ℝ); rw [sciZero]
+  · show (0.0 : ℝ) ≤ x1; rw [sciZero]; exact hp.x1pos.le
+  · show (0 : ℝ) ≤ (0.0 : ℝ); rw [sciZero]
+  · show (0.0 : ℝ) ≤ x3; rw [sciZero]; exact hp.x3pos.le
+  · intro q hq; exact (hz _ q hq).ge
+  · intro q hq; exact (hz _ q hq).ge
+  · show (zeros (initState x4).2.1).length = _
+    rw [h1]; exact List.length_replicate
+  · show (zeros (initState x4).2.2).length = _
+    rw [h2]; exact List.length_replicate
+  · show (0.0 : ℝ) + (0.0 : ℝ) + (zeros _ : List ℝ).sum + (zeros _ : List ℝ).sum = 0
+    rw [hs, hs, sciZero]; norm_num
 
 end OW.RR.GR4J
